@@ -73,12 +73,14 @@ func c01Report(l *evlog.Log) quicworld.Reporter {
 func TestVerifC01Faults(t *testing.T) {
 	l := evlog.Open("C01")
 	defer l.Close()
-	clients := []quicworld.ClientSel{{Client: "plain"}, {Client: "plain", V2: true}, {Client: "unil"}, {Client: "Chrome_115_IPv4"}, {Client: "Firefox_116A"}, {Client: "Firefox_116A~asym"}}
+	clients := []quicworld.ClientSel{{Client: "plain"}, {Client: "plain", V2: true}, {Client: "unil"}, {Client: "Chrome_115_IPv4"}, {Client: "Firefox_116A"}, {Client: "Firefox_116A~asym"},
+		// a resuming client whose transfer starts in 0-RTT (after a fault-free priming connection)
+		{Client: "plain~0rtt"}}
 	var cases []*quicworld.ConnCase
 	if l.Quick() {
 		cases = quicworld.FaultSuite(l, clients, []string{"S1", "S3"}, 8, 2500, 1000, 800)
 	} else {
-		clients = append(clients, quicworld.ClientSel{Client: "unil", V2: true}, quicworld.ClientSel{Client: "Chrome_146_IPv4"}, quicworld.ClientSel{Client: "Firefox_116C"})
+		clients = append(clients, quicworld.ClientSel{Client: "unil", V2: true}, quicworld.ClientSel{Client: "Chrome_146_IPv4"}, quicworld.ClientSel{Client: "Firefox_116C"}, quicworld.ClientSel{Client: "unil~0rtt"})
 		cases = quicworld.FaultSuite(l, clients, []string{"S1", "S2", "S3", "S5", "S6"}, 12, 60000, 40000, 12000)
 	}
 	// control-frame retransmission: small stream-count limits and small fixed windows make the transfer
